@@ -17,7 +17,7 @@ LEVEL = "proof"
 def build_pool(rng, name, dis, specs, nspec):
     e = dis.endian()
     ml = dis.maxlen
-    pool = {"valid": [], "random": [], "truncated": [], "prefix": [], "raiser": [], "prefix+raiser": [], "prefix+truncated": [], "prefix+valid": []}
+    pool = {"valid": [], "random": [], "truncated": [], "prefix": [], "raiser": [], "prefix+raiser": [], "prefix+truncated": [], "prefix+valid": [], "suffix": []}
     pfx = [s for s in specs if s.pfx is True]
     sample = specs if nspec >= len(specs) else rng.sample(specs, nspec)
     for s in sample:
@@ -25,6 +25,19 @@ def build_pool(rng, name, dis, specs, nspec):
         pool["valid"].append(b)
         if len(b) > 1:
             pool["truncated"].append(b[:rng.randrange(1, max(2, s.fix.size // 8 + 1))])
+    if XD[0]:
+        # '&' specifications: opcode, a small count, then that many (or one fewer: truncated suffix) short LEB128 items
+        for s in specs:
+            if s.pfx != "xdata":
+                continue
+            for cnt in (0, 1, 2, 3, 5):
+                for rep in range(4):
+                    op = c04.spec_bytes(rng, s, e, ml, fill=0)
+                    items = b"".join(bytes([rng.randrange(0, 128)]) if rng.random() < 0.8 else bytes([0x80 | rng.randrange(0, 128), rng.randrange(0, 128)])
+                                     for _ in range(cnt + 1))
+                    pool["suffix"].append(op + bytes([cnt]) + items + bytes(rng.getrandbits(7) for _ in range(rng.choice([0, 1, 3]))))
+                    if rep == 0 and len(items) > 1:
+                        pool["suffix"].append(op + bytes([cnt]) + items[:-1 - rng.randrange(0, len(items) - 1)])
     for _ in range(max(20, len(sample) // 4)):
         pool["random"].append(bytes(rng.getrandbits(8) for _ in range(rng.randrange(0, ml + 3))))
     for s in pfx:
@@ -44,9 +57,20 @@ def build_pool(rng, name, dis, specs, nspec):
     return pool, pfx
 
 
+XD = [False]
+
+
+def call(dis, b):
+    """one decoder call; in suffix mode (instruction sets with '&' specifications, whose decoding is completed from the code
+    buffer) the call is made the way the emulator makes it: the instruction bytes plus the buffer they come from"""
+    if XD[0]:
+        return dis(b, address=0, code=b)
+    return dis(b)
+
+
 def fresh(dis, b):
     isa.reset_pending(dis)
-    o = c04.outcome(lambda: dis(b))
+    o = c04.outcome(lambda: call(dis, b))
     isa.reset_pending(dis)
     return o
 
@@ -79,7 +103,8 @@ def fresh_many(dis, blobs):
 
 
 def worker(args):
-    name, k, seed, nspec, nhist, hlen, nmodel = args
+    name, k, seed, nspec, nhist, hlen, nmodel, xd = args
+    XD[0] = xd
     import amoco.arch.core as core
     cpus, _ = isa.load_all()
     decmodel.install(core)
@@ -127,7 +152,7 @@ def worker(args):
         more += [b for b in pool["prefix+truncated"] if b not in F]
         F.update(fresh_many(dis, more))
         kinds = [kd for kd, v in pool.items() if v]
-        weights = {"valid": 5, "random": 2, "truncated": 2, "prefix": 3, "raiser": 3, "prefix+raiser": 4, "prefix+truncated": 3, "prefix+valid": 4}
+        weights = {"valid": 5, "random": 2, "truncated": 2, "prefix": 3, "raiser": 3, "prefix+raiser": 4, "prefix+truncated": 3, "prefix+valid": 4, "suffix": 8}
         for h in range(nhist):
             isa.reset_pending(dis)
             hist = []
@@ -140,7 +165,7 @@ def worker(args):
             res["hist"] += 1
             seenfail = False
             for j, (kd, b) in enumerate(hist):
-                o = c04.outcome(lambda: dis(b))
+                o = c04.outcome(lambda: call(dis, b))
                 res["calls"] += 1
                 res["kinds"][kd] = res["kinds"].get(kd, 0) + 1
                 if kd in ("prefix", "raiser", "prefix+raiser", "prefix+truncated", "truncated") or o is None:
@@ -151,13 +176,13 @@ def worker(args):
                         minimal = None
                         for jj in range(j - 1, -1, -1):
                             isa.reset_pending(dis)
-                            c04.outcome(lambda: dis(hist[jj][1]))
-                            if c04.outcome(lambda: dis(b)) != F[b]:
+                            c04.outcome(lambda: call(dis, hist[jj][1]))
+                            if c04.outcome(lambda: call(dis, b)) != F[b]:
                                 minimal = [hist[jj][1].hex(), b.hex()]
                                 break
                         isa.reset_pending(dis)
                         res["viol"].append({"isa": name, "mode": k, "history": minimal or [x[1].hex() for x in hist[:j + 1]],
-                                            "call": b.hex(), "outcome_from_cleared_state": F[b], "outcome_after_history": o})
+                                            "call": b.hex(), "suffix_mode": XD[0], "outcome_from_cleared_state": F[b], "outcome_after_history": o})
                     isa.reset_pending(dis)
                     break
             if seenfail:
@@ -198,7 +223,10 @@ def check(run):
             reps = (2 if haspfx else 1) * (1 if quick else 6)
             for r in range(reps):
                 tasks.append((name, k, run.seed * 977 + 13 * len(tasks), 150 if quick else 600, (60 if quick else 400) * (3 if haspfx else 1),
-                              25, 60 if r == 0 else 0))
+                              25, 60 if r == 0 else 0, False))
+            if any(s.pfx == "xdata" for s in isa.flatten_tree(dis.specs[k])):
+                for r in range(1 if quick else 4):
+                    tasks.append((name, k, run.seed * 977 + 13 * len(tasks), 150 if quick else 600, 120 if quick else 800, 25, 0, True))
     with mp.get_context("fork").Pool(14, maxtasksperchild=1) as pool:
         results = pool.map(worker, tasks, chunksize=1)
     # corpus of minimised historical failures (after the pool: the parent must not decode before it forks)
@@ -208,12 +236,13 @@ def check(run):
         if c["isa"] not in cpus:
             continue
         dis = cpus[c["isa"]].disassemble
+        XD[0] = bool(c.get("suffix_mode"))
         with isa.ModeCtx(dis, c["mode"]):
             b = bytes.fromhex(c["call"])
             fr = fresh(dis, b)
             for h in c["history"][:-1]:
-                c04.outcome(lambda: dis(bytes.fromhex(h)))
-            o = c04.outcome(lambda: dis(b))
+                c04.outcome(lambda: call(dis, bytes.fromhex(h)))
+            o = c04.outcome(lambda: call(dis, b))
             isa.reset_pending(dis)
         run.count(("corpus", f))
         if o != fr:
@@ -270,12 +299,13 @@ def replay(path):
     obj = json.load(open(path))["replay"]
     cpus, _ = isa.load_all()
     dis = cpus[obj["isa"]].disassemble
+    XD[0] = bool(obj.get("suffix_mode"))
     with isa.ModeCtx(dis, obj["mode"]):
         b = bytes.fromhex(obj["call"])
         f = fresh(dis, b)
         for h in obj["history"][:-1] if obj["history"] and obj["history"][-1] == obj["call"] else obj["history"]:
-            c04.outcome(lambda: dis(bytes.fromhex(h)))
-        o = c04.outcome(lambda: dis(b))
+            c04.outcome(lambda: call(dis, bytes.fromhex(h)))
+        o = c04.outcome(lambda: call(dis, b))
         isa.reset_pending(dis)
     print(json.dumps({"from_cleared_state": f, "after_history": o}, indent=1))
     return 0 if f == o else 1
